@@ -58,7 +58,7 @@ def gen_plan(rng, index, tier):
         uid += 1
         r = rng.random()
         if r < 0.16 and depth < 4:
-            steps.append({"op": "enter", "level": rng.choice(["reactor", "core", "assembly", "block", "component"]), "idx": rng.randrange(1000), "keep": sorted(rng.sample(KEEP_CANDIDATES, rng.choice([0, 0, 1, 2, 3]))), "coldcache": rng.random() < 0.5})
+            steps.append({"op": "enter", "level": rng.choice(["reactor", "core", "assembly", "block", "component"]), "idx": rng.randrange(1000), "keep": sorted(rng.sample(KEEP_CANDIDATES, rng.choice([0, 0, 1, 2, 3]))), "coldcache": rng.random() < 0.5, "keepLevel": rng.choice([None, None, "block", "assembly", "core", "component"])})
             depth += 1
         elif r < 0.19 and depth < 3:
             # two nested scopes on one object that keep the same parameter; it is assigned in the
@@ -442,16 +442,31 @@ class Runner:
             i += 1
         return i, "end"
 
-    def keepset(self, names):
+    def keepset(self, names, only_level=None):
+        """The definitions to keep: every definition of those names, or (only_level) just the ones of
+        the classes found at one level of the model - a definition is a per-class object, and keeping
+        Block.power says nothing about Core.power."""
         from armi.reactor import parameters
 
-        return {pd for pd in parameters.ALL_DEFINITIONS if pd.name in names}
+        if only_level is None:
+            return {pd for pd in parameters.ALL_DEFINITIONS if pd.name in names}
+        out = set()
+        for x in c06.objects_at_level(self.r, only_level):
+            out |= {pd for pd in x.p.paramDefs if pd.name in names}
+        return out
 
     def scope(self, i, depth):
         st = self.steps[i]
         o = self.pick(st["level"], st["idx"])
-        keep = self.keepset(st["keep"])
+        keep = self.keepset(st["keep"], st.get("keepLevel"))
         names = set(st["keep"])
+        keep_ids = {id(pd) for pd in keep}
+        by_sn = {int(x.p.serialNum): x for x in subtree(o)}
+
+        def kept(sn, name):
+            x = by_sn.get(sn)
+            return x is not None and any(id(pd) in keep_ids for pd in x.p.paramDefs if pd.name == name)
+
         want = snapshot(o)
         vols = None
         comps = [x for x in subtree(o) if hasattr(x, "getVolume") and type(x).__name__ not in ("Reactor",)][:6]
@@ -502,9 +517,9 @@ class Runner:
                 for k in stt:
                     if sn not in inner:
                         continue
-                    if k.startswith("p.") and k[2:] in names:
+                    if k.startswith("p.") and k[2:] in names and kept(sn, k[2:]):
                         e[k] = inner[sn].get(k)
-                    elif (k == "T" and "temperatureInC" in names) or (k == "ndens" and "numberDensities" in names):
+                    elif (k == "T" and "temperatureInC" in names and kept(sn, "temperatureInC")) or (k == "ndens" and "numberDensities" in names and kept(sn, "numberDensities")):
                         e[k] = inner[sn].get(k)
                 exp[sn] = e
         diffs = list(diff_states(exp, got))
